@@ -307,7 +307,14 @@ def check_ops(ctx, value):
         # operations work on operands that have already been printed
         i = step.new if step.new is not None else step.changed
         if i is not None:
-            roundtrip(ctx, vars_[i].f, dict(case, var=i, at_step=step.index), "public", "arithmetic-early")
+            exp_tree = None
+            if step.new is not None and step.kind == "str" and step.op[2] is None:
+                # a formula just parsed from a rendered tree (possibly the same string as an earlier,
+                # since modified, variable) must print and parse back to what the tree says
+                E = env()
+                exp_tree = expected_from_tree(E["tables"]["public"], fa.tree_structure(E["pool"], step.op[1]["g"]))
+            roundtrip(ctx, vars_[i].f, dict(case, var=i, at_step=step.index, string=None), "public",
+                      "arithmetic-early", exp_tree=exp_tree)
     try:
         vars_, flags, skipped = ops.interpret(history, observer=observer if early else None,
                                               mag=(Fraction(1, 10 ** 20), Fraction(10 ** 20)))
